@@ -95,14 +95,30 @@ def evaluate_paths(F, cls, f, count_member="num_segments_", preset=None, fix_pro
     # the cost functors are the class-typed parameters of evaluate() other than the workspace pointer and the executor
     functor_types = {p["ty"].get("n") for p in f["params"][2:5] if p["ty"].get("c") == "record"}
 
+    # the functions that only maintain the layout cache (rebuild it, or rebuild it when it is marked dirty): found by what
+    # they write, not by their names
+    layout_fids = set()
+    try:
+        from .effects import Effects
+        from .props import c12
+        E_ = Effects(F)
+        dirty_, rebuild_, ins_, outs_ = c12.layout_roles(F, E_, cls)
+        allowed = set(outs_) | {dirty_}
+        for g_ in F.funcs(cls):
+            ws_ = {p_[1] for p_, h_, n_ in E_.function_writes(g_) if p_[0] == "this" and len(p_) >= 2}
+            if ws_ and ws_ <= allowed and g_.get("const"):
+                layout_fids.add(g_["fid"])
+    except Broken:
+        layout_fids = {g_["fid"] for g_ in F.funcs(cls, "ensureLayoutCache")}
+
     def hook(c, e, env, I):
         r = map_hook(c, e, env, I)
         if r is not NotImplemented:
             return r
         nm = c.get("name")
         ccls = c.get("cls", "")
-        if nm == "ensureLayoutCache":
-            return None
+        if c.get("fid") in layout_fids:
+            return None          # (re)building the layout cache: the cached layout is a stand-in in this summary
         if ccls.endswith("::Workspace") and nm == "resize":
             I.notes.append(("ws-resize", [I.ev(a, env) for a in e["args"]], I.tick()))
             if (e.get("t") or {}).get("c") == "bool":
